@@ -184,6 +184,7 @@ class Run:
             ev["coverage"]["discharged_count"] = 0
             del ev["coverage"]["discharged"], ev["coverage"]["obligations"]
             ev["coverage"]["evaluations"] = max(ev["coverage"]["evaluations"], 1)
+        (C.BUILD / f"last_broken_{self.prop}.json").write_text(json.dumps(self.broken, indent=1, default=str))
         (C.VERIF / "evidence").mkdir(exist_ok=True)
         (C.VERIF / "evidence" / f"{self.prop}.json").write_text(json.dumps(ev, indent=1, default=str))
         for l in lines:
